@@ -16,7 +16,8 @@ import CpModel.Gen.C16Tables
       the `stop < start` / `start >= content_length` tests; `min(stop, content_length - 1) + 1`;
       suffix ranges incl. suffix 0 / empty entity / suffix longer than the entity; the
       `continue` (unsatisfiable spec skipped) vs `return None` (whole header ignored) branches.
-    * `_serve_fileobj`: HTTP/1.0 => whole entity, no Accept-Ranges; `r == []` => 416 with
+    * `_serve_fileobj`: HTTP/1.0, or a file object whose length `serve_fileobj` could not
+      determine (`content_length is None`, e.g. io.BytesIO) => whole entity, no Accept-Ranges; `r == []` => 416 with
       `Content-Range: bytes */len`; one range => (dead) clamp, 206, Content-Range, Content-Length,
       `seek(start)` + `file_generator_limited(fileobj, r_len)` (64 KiB chunks until `count` bytes
       or EOF, modelled chunk by chunk in `readLimited`); several ranges => multipart/byteranges
@@ -192,9 +193,9 @@ inductive Served
   | multi (parts : List Part)
   deriving DecidableEq, Repr
 
-def serveFileobj (proto11 : Bool) (range : Option Text) (content : Bytes) : Served :=
+def serveFileobj (proto11 lenKnown : Bool) (range : Option Text) (content : Bytes) : Served :=
   let len := content.length
-  if proto11 then
+  if proto11 && lenKnown then
     match getRanges range len with
     | some [] => .unsat len
     | some [(start, stop)] =>
